@@ -62,7 +62,13 @@ func c11(args []string) {
 				for i, c := range op.Cs {
 					cs[i] = real(c)
 				}
-				src = fmt.Sprintf("(defflavor %s () (%s))", real(op.F), strings.Join(cs, " "))
+				if op.D == "var" {
+					// the flavor declares instance variable v: default = its own name, gettable and initable
+					src = fmt.Sprintf(`(defflavor %s ((v "%s")) (%s) :gettable-instance-variables :initable-instance-variables)`,
+						real(op.F), op.F, strings.Join(cs, " "))
+				} else {
+					src = fmt.Sprintf("(defflavor %s () (%s))", real(op.F), strings.Join(cs, " "))
+				}
 			case "defmethod":
 				switch op.D {
 				case "primary":
@@ -96,7 +102,19 @@ func c11(args []string) {
 					}
 				}
 			}
-			obs[f] = h.V{"prec": prec, "trace": tr, "err": o.Class, "fault": o.Fault()}
+			// default of v, the :v accessor and the :v init keyword are inherited by the same order
+			vdef, vinit := "", ""
+			if vo := h.Eval(s, fmt.Sprintf("(send (make-instance '%s) :v)", real(f))); vo.OK() {
+				vdef = "=" + slip.ObjectString(vo.Val)
+			} else {
+				vdef = "!" + vo.Class
+			}
+			if vo := h.Eval(s, fmt.Sprintf("(send (make-instance '%s :v 7) :v)", real(f))); vo.OK() {
+				vinit = "=" + slip.ObjectString(vo.Val)
+			} else {
+				vinit = "!" + vo.Class
+			}
+			obs[f] = h.V{"prec": prec, "trace": tr, "err": o.Class, "fault": o.Fault(), "vdef": vdef, "vinit": vinit}
 		}
 		out.Emit(h.V{"t": st.ID, "defs": defs, "obs": obs})
 	})
